@@ -2,6 +2,7 @@ package harness
 
 import (
 	"encoding/json"
+	"time"
 
 	"kmipverif/simnet"
 	"kmipverif/simrt"
@@ -145,8 +146,10 @@ func init() {
 	register(&Prop{
 		ID: "C10", Engine: "client",
 		Generate: genC10, Decode: decodeClientSc, Execute: execC10,
-		Config: func(any) simrt.Config { return simrt.Config{MaxSteps: 100000} },
-		Runs:   clientRuns(60000, 6000000),
+		Config: func(any) simrt.Config {
+			return simrt.Config{MaxSteps: 100000, IdleProbe: 5 * time.Second, ClockJumpPM: 15}
+		},
+		Runs: clientRuns(60000, 6000000),
 		Floors: []Floor{
 			{Name: "ctx-observation", Count: func(t string) int { return len(c10ObserveFloor(t)) }, Scenario: func(t string, i int) any { return c10ObserveFloor(t)[i] }},
 			{Name: "single-preemption", Sweep: true, Count: func(t string) int { return len(c10SweepFloor(t)) }, Scenario: func(t string, i int) any { return c10SweepFloor(t)[i] }},
